@@ -63,6 +63,11 @@ def gen_layers(run):
     run.dyn_compile(['LayersGen', 'LayersGenProps'])
     return ok
 
+def gen_find(run):
+    ok = run.generate('find2v(_find_binding,_find_named_binding,_find_attrpath_root)', ['-W', 'ignore', os.path.join(VERIF, 'tools', 'find2v.py'), REPO], 'FindGen.v')
+    run.dyn_compile(['FindGen', 'FindProps'])
+    return ok
+
 def gen_cli(run):
     return run.generate('cli2v(cli/main.py:main match arms)', ['-W', 'ignore', os.path.join(VERIF, 'tools', 'cli2v.py'), REPO], 'CliGen.v')
 
@@ -92,6 +97,7 @@ EDIT_ASSUME = ['the edit heap model (coq/Edit/EditModel.v) is hand-written: iden
                'scope selectors, reference redirection (C11), quoted segments and the byte-level text are covered by the searches (tests), not by the theorems']
 def edit_family(run, search_prop, n_quick=900, n_thorough=6000, corr=True, pre=None):
     run.static()
+    gen_find(run)           # the model's look-ups are proved equal to the look-ups regenerated from the source
     if pre: pre(run)
     run.props()
     big = run.tier == 'thorough'
@@ -124,6 +130,7 @@ def C09(run):
 
 def C14(run):
     run.static()
+    gen_find(run)
     run.props()
     big = run.tier == 'thorough'
     run.suite('mapping', 'map_corr.py', [run.seed, 4800 if big else 800], 'MP')
